@@ -79,10 +79,31 @@ IsWide(c) == c \notin FmtAscii
 
 \* XML 1.0 Char, without carriage return (the property's XML string domain)
 XmlCharOk(c) == c \notin {"\r", "\f"}
-XmlNameStart(c) == c \in AsciiLetters \cup {"_"} \/ IsWide(c)
-XmlNameChar(c)  == XmlNameStart(c) \/ c \in Digits \cup {"-", "."}
-\* keys: XML names usable as a tag of a namespace-less document (no colon)
-IsNCName(s) == s # <<>> /\ XmlNameStart(s[1]) /\ \A i \in DOMAIN s : XmlNameChar(s[i])
+\* XML 1.0 Name production, for the ASCII model alphabet:
+\*   NameStartChar ::= ":" | [A-Z] | "_" | [a-z] | (non-ASCII ranges)
+\*   NameChar      ::= NameStartChar | "-" | "." | [0-9] | (non-ASCII ranges)
+\* NC* are the same without the colon (names of a namespace-less document).
+NcNameStart(c)  == c \in AsciiLetters \cup {"_"} \/ IsWide(c)
+NcNameChar(c)   == NcNameStart(c) \/ c \in Digits \cup {"-", "."}
+XmlNameStart(c) == NcNameStart(c) \/ c = ":"
+XmlNameChar(c)  == NcNameChar(c) \/ c = ":"
+\* keys: XML Names (the property's XML key domain), colon included
+IsXmlName(s) == s # <<>> /\ XmlNameStart(s[1]) /\ \A i \in DOMAIN s : XmlNameChar(s[i])
+\* root tags: colon-free names
+IsNCName(s) == s # <<>> /\ NcNameStart(s[1]) /\ \A i \in DOMAIN s : NcNameChar(s[i])
+
+\* Known finding C04-xml-colon-key: the real XmlConfigFormat cannot write a map key that
+\* contains ":" (ElementTree / expat read it as a namespace prefix).  The specification keeps
+\* the INTENDED behaviour (such keys round-trip like any other Name); this predicate only
+\* names the cause, so that conformance failures of XML runs on such trees are labelled.
+RECURSIVE HasColonKey(_)
+HasColonKey(v) ==
+    CASE v.t = "list" -> \E i \in DOMAIN v.l : HasColonKey(v.l[i])
+      [] v.t = "dict" -> \E i \in DOMAIN v.kv :
+                            \/ \E j \in DOMAIN v.kv[i][1].s : v.kv[i][1].s[j] = ":"
+                            \/ HasColonKey(v.kv[i][2])
+      [] OTHER -> FALSE
+ColonCause(fmt, t) == fmt = "xml" /\ HasColonKey(t)
 
 ---------------------------------------------------------------------------
 (* decimal digit strings (numbers TLC cannot hold) *)
@@ -272,7 +293,7 @@ RECURSIVE XmlOk(_)
 XmlOk(v) ==
     CASE v.t = "str"  -> \A i \in DOMAIN v.s : XmlCharOk(v.s[i])
       [] v.t = "list" -> \A i \in DOMAIN v.l : XmlOk(v.l[i])
-      [] v.t = "dict" -> \A i \in DOMAIN v.kv : IsNCName(v.kv[i][1].s) /\ XmlOk(v.kv[i][2])
+      [] v.t = "dict" -> \A i \in DOMAIN v.kv : IsXmlName(v.kv[i][1].s) /\ XmlOk(v.kv[i][2])
       [] OTHER -> TRUE
 RECURSIVE BsonOk(_)
 BsonOk(v) ==
